@@ -522,6 +522,18 @@ Sync(s, r) ==
     [] s.pc = "c1" -> [s |-> [pc |-> "c2", v1 |-> r.v], eff |-> Call("func", <<Item(1, 2)>>)]
     [] s.pc = "c2" -> [s |-> To("end"), eff |-> Return(<<s.v1, r.v>>)]
 
+\* builtins.anext(iterator[, default]) called par.n times in a row on one iterator: one pull per
+\* call, the item or -- at the end -- the default object (possibly None) / StopAsyncIteration; the iterator is only
+\* borrowed (never closed), and may be asked again after it reported its end
+ANext(s, r) ==
+  LET dfl == Node("default", <<>>) IN
+  CASE s.pc = "init" -> [s |-> [pc |-> "got", acc |-> <<>>], eff |-> Pull(1)]
+    [] s.pc = "got" ->
+         IF r.k = "stop" /\ cfg.par.dflt = "no" THEN [s |-> To("end"), eff |-> RaiseX("Stop")]
+         ELSE LET acc == Append(s.acc, IF r.k = "item" THEN r.v ELSE dfl) IN
+              IF Len(acc) = cfg.par.n THEN [s |-> To("end"), eff |-> Return(acc)]
+              ELSE [s |-> [pc |-> "got", acc |-> acc], eff |-> Pull(1)]
+
 ---------------------------------------------------------------------------
 (* Dispatch and configuration space                                        *)
 
@@ -561,6 +573,7 @@ Step(s, r) ==
     [] cfg.tool = "await_each"  -> AwaitEach(s, r)
     [] cfg.tool = "apply"       -> Apply_(s, r)
     [] cfg.tool = "sync"        -> Sync(s, r)
+    [] cfg.tool = "anext"       -> ANext(s, r)
 
 K1 == {1}            \* opaque items: only identity matters
 K01 == {0, 1}        \* truth values / predicate outcomes
@@ -650,11 +663,14 @@ ConfigsOf(t) ==
          {[tool |-> t, par |-> [awres |-> b], data |-> d] : b \in BOOLEAN, d \in {dd \in DataSets(2, K1) : Len(dd[1]) + Len(dd[2]) <= MaxLen + 1}}
     [] t = "sync" ->
          {[tool |-> t, par |-> NoPar, data |-> <<<<1, 1>>>>]}
+    [] t = "anext" ->
+         {[tool |-> t, par |-> [dflt |-> b, n |-> m], data |-> d] :
+             b \in {"no", "fresh", "none"}, m \in 1..3, d \in DataSets(1, K01)}   \* "none": the default is the object None
 
 Configs == UNION {ConfigsOf(t) : t \in Tools}
 
 IsAggregation == cfg.tool \in {"all", "any", "sum", "reduce", "min", "max", "list", "tuple",
-                               "set", "dict", "sorted", "nlargest", "nsmallest", "apply", "sync"}
+                               "set", "dict", "sorted", "nlargest", "nsmallest", "apply", "sync", "anext"}
 
 \* how often the consumer may ask before it has to close (cycle never ends)
 NextCap == IF cfg.tool = "cycle" THEN 2 * MaxLen + 1 ELSE 1000
@@ -780,7 +796,7 @@ Exhausted == Done /\ LastEv \in {"end", "return"}
 \* never pulled again
 NoUseAfterFault == fault # 0 => Done /\ nuse = fault
 NoPullAfterStop ==
-  cfg.tool # "batched" =>
+  cfg.tool \notin {"batched", "anext"} =>
   \A i \in 0..NSrc :
      LET p == PullsOf(i) IN \A j \in 1..(Len(p) - 1) : p[j].res = "item"
 
